@@ -4,6 +4,7 @@ set -e
 cd "$(dirname "$0")"
 export GOFLAGS=-mod=mod GOPROXY=off GOSUMDB=off GOTOOLCHAIN=local
 mkdir -p build evidence replays
+python3 lib/gen_lean_roots.py
 (cd lean && lake build ElysModel driver)
 (cd harness && sh gen_gomod.sh && go test -c -tags verif -o ../build/harness.test .)
 echo setup ok
